@@ -49,19 +49,24 @@ def opJson (hidden : N → Bool) (op : Op) : Json :=
 
 def pairsJson (l : List (N × Content)) : Json := Json.arr (l.map fun p => Json.arr #[ofChars p.1, ofChars p.2]).toArray
 
-def vdbViewJson (names : List N) (s : Store) : Json :=
-  Json.arr (names.filterMap fun n => (viewVdb s n).map fun fs => Json.arr #[ofChars n, pairsJson fs]).toArray
+def dedupAdj {α : Type} [DecidableEq α] : List α → List α
+  | [] => []
+  | [a] => [a]
+  | a :: b :: rest => if a = b then dedupAdj (b :: rest) else a :: dedupAdj (b :: rest)
 
-def binViewJson (names : List N) (s : Store) : Json :=
-  Json.arr (names.filterMap fun n => (viewBin s n).map fun c => Json.arr #[ofChars n, ofChars c]).toArray
-
+/-- the sequence of *distinct* listings over all crash states (consecutive duplicates removed) -/
 def answer (vdb : Bool) (storeL : List (N × Obj)) (ops : List Op) : Json :=
   let st := mkStore storeL
   let names := (storeL.map (·.1) ++ ops.flatMap opNames).eraseDups
   let hidden := if vdb then hiddenVdb else hiddenBin
-  let view := if vdb then vdbViewJson names else binViewJson names
-  Json.mkObj [("ops", Json.arr (ops.map (opJson hidden)).toArray),
-              ("views", Json.arr ((states ops st).map view).toArray)]
+  let views : Json :=
+    if vdb then
+      let vs := dedupAdj ((states ops st).map fun s => names.filterMap fun n => (viewVdb s n).map fun fs => (n, fs))
+      Json.arr (vs.map fun v => Json.arr (v.map fun p => Json.arr #[ofChars p.1, pairsJson p.2]).toArray).toArray
+    else
+      let vs := dedupAdj ((states ops st).map fun s => names.filterMap fun n => (viewBin s n).map fun c => (n, c))
+      Json.arr (vs.map fun v => Json.arr (v.map fun p => Json.arr #[ofChars p.1, ofChars p.2]).toArray).toArray
+  Json.mkObj [("ops", Json.arr (ops.map (opJson hidden)).toArray), ("views", views), ("nstates", toJson (ops.length + 1))]
 
 def handle : Handler := fun cmd j =>
   match cmd with
